@@ -397,9 +397,15 @@ func fopOnNumber(rec []byte, qValDte *DtypeEnclosure,
 	}
 
 	// now create a float (highest level for rec, only if we need to based on query
+	// The literal is a decimal: compare by value in float, not the stored
+	// integer against the truncated literal.
 	if qValDte.Dtype == SS_DT_FLOAT && recDte.Dtype != SS_DT_FLOAT {
-		// todo need to check err
-		recDte.FloatVal, _ = dtu.ConvertToFloat(recDte.UnsignedVal, 64)
+		if recDte.Dtype == SS_DT_SIGNED_NUM {
+			recDte.FloatVal = float64(recDte.SignedVal)
+		} else {
+			recDte.FloatVal = float64(recDte.UnsignedVal)
+		}
+		recDte.Dtype = SS_DT_FLOAT
 	}
 
 	return compareNumberDte(recDte, qValDte, op)
